@@ -114,10 +114,22 @@ def f4a_non_utf8(xcp, d):
         return []
     return ["versions lost: destination has %r" % have]
 
+def f10_special_alias(xcp, d):
+    """C03: `xcp ./p p` for a FIFO (both drivers): the Special arm must not unlink the source"""
+    bad = []
+    for drv in ("parfile", "parblock"):
+        w = os.path.join(d, drv); os.makedirs(w)
+        os.mkfifo(os.path.join(w, "p"))
+        rc, err = run(xcp, ["--driver", drv, "./p", "p"], w)
+        if not (os.path.lexists(os.path.join(w, "p")) and stat.S_ISFIFO(os.lstat(os.path.join(w, "p")).st_mode)):
+            bad.append("%s: source FIFO gone after `xcp ./p p` (exit %d)" % (drv, rc))
+    return bad
+
 ALL = {"new:create-before-identity-check": f1_self_copy, "parfile:symlink-result-discarded": f2_symlink_result,
        "copy_node:dev-not-rdev": f3_device_number, "parblock:short-copy-not-retried": f5_short_copy,
        "walker:deref-does-not-follow-dir-links": f8_deref_dir_link, "finalise:chown-after-chmod": f9_setid_ownership,
-       "backup:prefix-match": f4b_prefix, "backup:non-utf8-unrecognised": f4a_non_utf8}
+       "backup:prefix-match": f4b_prefix, "backup:non-utf8-unrecognised": f4a_non_utf8,
+       "worker-special:alias-removed": f10_special_alias}
 
 def main():
     repo = sys.argv[1]
